@@ -402,20 +402,45 @@ def _restore_never_unsets(ctx, mod, meths):
         raise AnchorMissing(f"{EN}:Env.swap")
     swf = flat(ctx, sw, 2, skip=("_set_item", "_del_item", "_capture_for_swap"))
     st = f"{EN}:Env.swap"
-    # the marker: what the restore loop tests before it deletes
+    # the marker: what the restore loop tests before it deletes.  Decided by path enumeration over the loop body, so that
+    # if/else, guard clause + continue, either arm order and try/except vs suppress() are one shape: the one comparison
+    # `<v> is <marker>` that holds on every deleting path and fails on every path that writes a value back
+    from ..engine import dtable as _dt
+
+    def _is(c, suffixes):
+        return isinstance(c, ast.Call) and (call_name(c) or "").endswith(suffixes)
+
     marker = None
-    restore_ifs = []
-
-    def _deletes(body):
-        return any((call_name(c) or "").endswith(("_del_item", "del_locally")) for b_ in body for c in calls_in(b_))
-
-    for n in walk_local(swf):
-        if isinstance(n, ast.If) and isinstance(n.test, ast.Compare) and len(n.test.ops) == 1 and isinstance(n.test.ops[0], (ast.Is, ast.Eq, ast.IsNot, ast.NotEq)):
-            pos = isinstance(n.test.ops[0], (ast.Is, ast.Eq))
-            del_arm, set_arm = (n.body, n.orelse) if pos else (n.orelse, n.body)
-            if _deletes(del_arm) and not _deletes(set_arm):
-                marker = unparse(n.test.comparators[0])
-                restore_ifs.append((n, set_arm))
+    restore_loops = []
+    for lp in [n for n in walk_local(swf) if isinstance(n, ast.For)]:
+        if not any(_is(c, ("_del_item", "del_locally")) for b_ in lp.body for c in calls_in(b_)):
+            continue
+        del_lits, set_lits, set_calls = [], [], []
+        for pth in _dt.simplified(_dt.paths(lp.body, stores=True, loops="skip")):
+            calls = [c for e in pth.effects for c in ast.walk(e) if isinstance(c, ast.Call)]
+            dels = [c for c in calls if _is(c, ("_del_item", "del_locally"))]
+            sets = [c for c in calls if _is(c, ("_set_item",))]
+            if not dels and not sets:
+                continue
+            lits = {}
+            for e, pol in pth.conds:
+                for e2, p2 in _dt.branches(e, pol)[0] if len(_dt.branches(e, pol)) == 1 else [_dt.normalise(e, pol)]:
+                    e3, p3 = _dt.normalise(e2, p2)
+                    if isinstance(e3, ast.Compare) and len(e3.ops) == 1 and isinstance(e3.ops[0], (ast.Is, ast.Eq)) and isinstance(e3.left, ast.Name):
+                        lits[(unparse(e3.left), unparse(e3.comparators[0]))] = p3
+            if dels:
+                del_lits.append(lits)
+            if sets:
+                set_lits.append(lits)
+                set_calls += sets
+        cands = [k for k in (del_lits[0] if del_lits else {}) if all(l.get(k) is True for l in del_lits) and all(l.get(k) is False for l in set_lits)]
+        if len(cands) != 1:
+            raise AnalysisError(f"{st}: the restore loop at line {lp.lineno} deletes a variable, but not under one recognisable test of the captured state (`if v is <marker>: _del_item` / else `_set_item`): candidates {cands}")
+        var, mk = cands[0]
+        if marker is not None and mk != marker:
+            raise AnalysisError(f"{st}: two different 'was absent' markers in the restore loops ({marker}, {mk})")
+        marker = mk
+        restore_loops.append((lp, var, set_calls))
     if marker is None:
         raise AnalysisError(f"{st}: the restore loop's delete branch (`if v is <marker>: _del_item`) was not found")
     # producers of the marker: returns of the capture helper(s) called for `old[k] = ...`, or direct stores in swap
@@ -455,11 +480,9 @@ def _restore_never_unsets(ctx, mod, meths):
     if not producers:
         raise AnalysisError(f"{st}: nothing produces the restore marker {marker}")
     # and the set branch writes back the captured value itself
-    for n, set_arm in restore_ifs:
-        sets = [c for b_ in set_arm for c in calls_in(b_) if (call_name(c) or "").endswith("_set_item")]
-        var = unparse(n.test.left)
+    for lp, var, sets in restore_loops:
         ok = bool(sets) and all(len(c.args) >= 2 and unparse(c.args[1]) == var for c in sets)
-        ctx.ob("R10", st, "a key that existed before is restored to exactly the captured value", ok, key="swap|restore-not-captured-value", where=loc(n))
+        ctx.ob("R10", st, "a key that existed before is restored to exactly the captured value", ok, key="swap|restore-not-captured-value", where=loc(lp))
 
 
 def _lookup_purity(ctx, mod, meths):
